@@ -7,7 +7,7 @@ package keeper
 
 //@ define paramsStored = has(prm) && types.paramsOK(get(prm))
 
-//@ func Keeper.SetParams
+//@ func Keeper.SetParams(ctx, params)
 //@   property C16
 //@   returns err
 //@   modifies prm
@@ -15,7 +15,7 @@ package keeper
 //@   ensures rejected: err != nil ==> prm == old(prm)
 //@ end
 
-//@ func msgServer.UpdateParams
+//@ func msgServer.UpdateParams(goCtx, msg)
 //@   property C16
 //@   returns resp, err
 //@   modifies prm
@@ -39,7 +39,7 @@ package keeper
 // stored entries are positive coins filed under their own denomination
 //@ define tallyWF(T) = forall a:Bytes :: forall d:Str :: has(T, a, d) ==> get(T, a, d).Denom == d && get(T, a, d).Amount > 0
 
-//@ func Keeper.GetEarnedFees
+//@ func Keeper.GetEarnedFees(ctx, provider)
 //@   property C07
 //@   returns fees, found
 //@   requires tallyWF(earned)
@@ -49,7 +49,7 @@ package keeper
 //@   nopanic
 //@ end
 
-//@ func Keeper.GetOwnerEarnedFees
+//@ func Keeper.GetOwnerEarnedFees(ctx, owner)
 //@   property C07
 //@   returns fees, found
 //@   requires tallyWF(ownerEarned)
@@ -68,7 +68,7 @@ package keeper
 //@   ensures amt(c, d) > 0 ==> 0 <= cidx(c, d) && cidx(c, d) < len(c) && coinat(c, cidx(c, d)).Denom == d
 
 // Set writes exactly the listed denominations (it does not clear the others: callers that shrink a tally clear first)
-//@ func Keeper.SetEarnedFees
+//@ func Keeper.SetEarnedFees(ctx, provider, fees)
 //@   property C07
 //@   uses coinsListI(fees, 0)
 //@   uses coinsListD(fees, "")
@@ -82,7 +82,7 @@ package keeper
 //@   ensures frame:   forall a:Bytes :: forall d:Str :: a != provider ==> has(earned, a, d) == old(has(earned, a, d)) && get(earned, a, d) == old(get(earned, a, d))
 //@ end
 
-//@ func Keeper.SetOwnerEarnedFees
+//@ func Keeper.SetOwnerEarnedFees(ctx, owner, fees)
 //@   property C07
 //@   uses coinsListI(fees, 0)
 //@   uses coinsListD(fees, "")
@@ -96,7 +96,7 @@ package keeper
 //@   ensures frame:   forall a:Bytes :: forall d:Str :: a != owner ==> has(ownerEarned, a, d) == old(has(ownerEarned, a, d)) && get(ownerEarned, a, d) == old(get(ownerEarned, a, d))
 //@ end
 
-//@ func Keeper.DeleteEarnedFees
+//@ func Keeper.DeleteEarnedFees(ctx, provider)
 //@   property C07
 //@   modifies earned
 //@   invariant #1 pos:  0 <= it_idx && it_idx <= it_n
@@ -107,7 +107,7 @@ package keeper
 //@   ensures frame:   forall a:Bytes :: forall d:Str :: a != provider ==> has(earned, a, d) == old(has(earned, a, d)) && get(earned, a, d) == old(get(earned, a, d))
 //@ end
 
-//@ func Keeper.DeleteOwnerEarnedFees
+//@ func Keeper.DeleteOwnerEarnedFees(ctx, owner)
 //@   property C07
 //@   modifies ownerEarned
 //@   invariant #1 pos:  0 <= it_idx && it_idx <= it_n
@@ -127,7 +127,7 @@ package keeper
 
 // A fee that has been earned: floor(fee * tax) per denomination goes to the fee collector, the rest is added to the
 // provider's tally and, by the same amount, to the tally of the provider's owner; the coins stay in the request escrow.
-//@ func Keeper.AddEarnedFee
+//@ func Keeper.AddEarnedFee(ctx, provider, fee)
 //@   property C07
 //@   returns err
 //@   requires has(prm) && !isnil(TAXRATE) && raw(TAXRATE) >= 0 && raw(TAXRATE) <= DEC_ONE
@@ -154,7 +154,7 @@ package keeper
 
 // Withdrawal: only the owner; pays exactly the tally that is cleared, and the owner's tally goes down by exactly the
 // provider's tally in every denomination (C07: both tallies keep agreeing, nothing can be withdrawn twice).
-//@ func Keeper.WithdrawEarnedFees
+//@ func Keeper.WithdrawEarnedFees(ctx, owner, provider)
 //@   property C07
 //@   returns err
 //@   requires tallyWF(earned) && tallyWF(ownerEarned)
@@ -192,7 +192,7 @@ package keeper
 //@ define DT(svc, prov) = uf("discount_by_time", get(pricings, svc, prov), time)
 //@ define DV(c, svc, prov) = uf("discount_by_volume", get(pricings, svc, prov), ite(has(volumes, c, svc, prov), get(volumes, c, svc, prov), 0))
 //@ define FEE(c, svc, prov, d) = uf("discounted", amt(get(pricings, svc, prov).Price, d), DT(svc, prov), DV(c, svc, prov))
-//@ func Keeper.GetPrice
+//@ func Keeper.GetPrice(ctx, consumer, binding)
 //@   property C07, C13
 //@   trusted
 //@   returns fee
@@ -202,7 +202,7 @@ package keeper
 //@   nopanic
 //@ end
 // The price converted to the base denomination through the oracle feed (assumed: reads only).
-//@ func Keeper.GetExchangedPrice
+//@ func Keeper.GetExchangedPrice(ctx, consumer, binding)
 //@   property C07, C13
 //@   trusted
 //@   returns price, rawDenom, err
@@ -210,7 +210,7 @@ package keeper
 //@ end
 
 // Which providers take part in a batch and what the consumer is charged for it.
-//@ func Keeper.FilterServiceProviders
+//@ func Keeper.FilterServiceProviders(ctx, serviceName, providers, timeout, serviceFeeCap, consumer)
 //@   property C07
 //@   returns selected, total, rawDenom, err
 //@   invariant #1 idx:  rangeindex >= 0 - 1 && rangeindex < len(providers)
@@ -249,7 +249,7 @@ package keeper
 //@              && (get(bindings, s, a).Provider != "" ==> has(pricings, s, a) && bechok(get(bindings, s, a).Provider) && addr(get(bindings, s, a).Provider) == a))
 // pricing string -> Pricing (JSON, denomination check against the base denom), minimum deposit and deposit shape:
 // assumed contracts (pure reads of parameters)
-//@ func Keeper.ParsePricing
+//@ func Keeper.ParsePricing(ctx, pricing)
 //@   property C07
 //@   trusted
 //@   returns p, err
@@ -258,7 +258,7 @@ package keeper
 //@ end
 // The exchange rate of two denominations as served by the registered oracle module service (assumed contract: reads
 // only, and a rate that is returned without error is a positive decimal - A-RATE; the code itself only rejects zero)
-//@ func Keeper.GetExchangeRate
+//@ func Keeper.GetExchangeRate(ctx, quoteDenom, baseDenom)
 //@   property C07, C13, C16
 //@   trusted
 //@   returns rate, err
@@ -267,14 +267,14 @@ package keeper
 //@ end
 // minimum deposit of a binding = max(price in the base denomination x multiple, MinDeposit): no parameter set accepted
 // by validation may make this abort (it runs in the bind / update / enable handlers and, through Slash, in the end blocker)
-//@ func Keeper.GetMinDeposit
+//@ func Keeper.GetMinDeposit(ctx, pricing)
 //@   property C07, C13, C16
 //@   returns min, err
 //@   requires has(prm) && types.paramsOK(get(prm))
 //@   requires len(pricing.Price) > 0 && (forall d:Str :: amt(pricing.Price, d) >= 0)
 //@   nopanic
 //@ end
-//@ func Keeper.validateDeposit
+//@ func Keeper.validateDeposit(ctx, deposit)
 //@   property C07
 //@   trusted
 //@   returns err
@@ -286,7 +286,7 @@ package keeper
 
 // UpdateServiceBinding: only the binding's owner; the added deposit is recorded on the binding and moved from the owner
 // to the deposit escrow, whether or not the binding is currently available.
-//@ func Keeper.UpdateServiceBinding
+//@ func Keeper.UpdateServiceBinding(ctx, serviceName, provider, deposit, pricing, qos, options, owner)
 //@   property C07
 //@   returns err
 //@   requires has(prm) && types.paramsOK(get(prm)) && pricingsWF
@@ -335,7 +335,7 @@ package keeper
 //@ define requestInv = forall d:Str :: bal(REQ, d) == ACTFEE(requests, activeByID, d) + EARNSUM(earned, d)
 
 // a stored compact request decodes to a full request: provider and fee come from the compact record
-//@ func Keeper.GetRequest
+//@ func Keeper.GetRequest(ctx, requestID)
 //@   property C07, C08, C13
 //@   returns request, found
 //@   ensures source: found ==> has(requests, requestID) && request.Provider == get(requests, requestID).Provider && bechok(request.Provider)
@@ -350,7 +350,7 @@ package keeper
 //@ end
 
 // module callbacks run code of the registering module: assumed not to touch this module's store or its escrow accounts
-//@ func Keeper.CompleteBatch
+//@ func Keeper.CompleteBatch(ctx, requestContext, requestContextID)
 //@   property C07, C08
 //@   trusted
 //@   returns rc
@@ -362,7 +362,7 @@ package keeper
 
 // AddResponse: only the provider the request was addressed to, only while the request is active; the active marker is
 // consumed (a second answer, or an answer after expiry removed the marker, is rejected) and the fee is earned.
-//@ func Keeper.AddResponse
+//@ func Keeper.AddResponse(ctx, requestID, provider, result, output)
 //@   property C08, C07
 //@   returns request, response, err
 //@   requires has(prm) && !isnil(TAXRATE) && raw(TAXRATE) >= 0 && raw(TAXRATE) <= DEC_ONE
@@ -400,7 +400,7 @@ package keeper
 //@ define expQInv = (forall i:Bytes :: forall h:Int :: has(expBatch, i, h) ==> has(expBatchH, i) && get(expBatchH, i) == h)
 
 // Only the consumer of a context may operate on it.
-//@ func Keeper.CheckAuthority
+//@ func Keeper.CheckAuthority(ctx, consumer, requestContextID, checkModule)
 //@   property C08
 //@   returns err
 //@   ensures consumer_only: err == nil ==> has(contexts, requestContextID) && bech(consumer) == CTX(requestContextID).Consumer
@@ -409,7 +409,7 @@ package keeper
 
 // Start: only a paused context; it becomes running and gets a new batch at the current height unless one is already
 // scheduled (new-batch queue) or still in flight (expiration queue) - never a second entry.
-//@ func Keeper.StartRequestContext
+//@ func Keeper.StartRequestContext(ctx, requestContextID, consumer)
 //@   property C08, C13
 //@   returns err
 //@   requires height >= 0
@@ -426,14 +426,14 @@ package keeper
 
 // Outputs handed to a module callback: only non-empty ones (error responses carry no output and do not count
 // towards the response threshold).
-//@ func Keeper.GetResponseOutputs
+//@ func Keeper.GetResponseOutputs(ctx, requestContextID, batchCounter)
 //@   property C08
 //@   returns outputs
 //@   invariant #1 nonempty: forall j:Int :: 0 <= j && j < len(outputs) ==> len(outputs[j]) > 0
 //@   ensures valid_only: forall j:Int :: 0 <= j && j < len(outputs) ==> len(outputs[j]) > 0
 //@ end
 
-//@ func Keeper.validateServiceFeeCap
+//@ func Keeper.validateServiceFeeCap(ctx, serviceFeeCap)
 //@   property C08, C13
 //@   trusted
 //@   returns err
@@ -443,7 +443,7 @@ package keeper
 // A stored repeated context never asks for a new batch before the previous one can have expired.
 //@ define scheduleOK(c) = c.RepeatedFrequency >= c.Timeout && c.Timeout > 0
 
-//@ func Keeper.UpdateRequestContext
+//@ func Keeper.UpdateRequestContext(ctx, requestContextID, providers, respThreshold, serviceFeeCap, timeout, repeatedFreq, repeatedTotal, consumer)
 //@   property C08, C13
 //@   returns err
 //@   requires has(prm)
@@ -460,7 +460,7 @@ package keeper
 //@   ensures rejected:   err != nil ==> contexts == old(contexts)
 //@ end
 
-//@ func Keeper.PauseRequestContext
+//@ func Keeper.PauseRequestContext(ctx, requestContextID, consumer)
 //@   property C08
 //@   returns err
 //@   modifies contexts
@@ -470,7 +470,7 @@ package keeper
 //@   ensures rejected: err != nil ==> contexts == old(contexts)
 //@ end
 
-//@ func Keeper.KillRequestContext
+//@ func Keeper.KillRequestContext(ctx, requestContextID, consumer)
 //@   property C08
 //@   returns err
 //@   modifies contexts
@@ -482,7 +482,7 @@ package keeper
 
 // RefundDeposit: only the owner of an unavailable binding, after the waiting period; pays exactly the recorded deposit
 // from the deposit escrow and records zero.
-//@ func Keeper.RefundDeposit
+//@ func Keeper.RefundDeposit(ctx, serviceName, provider, owner)
 //@   property C07
 //@   returns err
 //@   requires has(prm)
@@ -501,7 +501,7 @@ package keeper
 //@ end
 
 // EnableServiceBinding: like an update with a deposit: what is added to the record is moved to the escrow.
-//@ func Keeper.EnableServiceBinding
+//@ func Keeper.EnableServiceBinding(ctx, serviceName, provider, deposit, owner)
 //@   property C07
 //@   returns err
 //@   requires has(prm) && types.paramsOK(get(prm)) && pricingsWF
@@ -522,7 +522,7 @@ package keeper
 // off the binding's record.
 //@ define SLASHFRAC = get(prm).SlashFraction
 //@ define BASE = get(prm).BaseDenom
-//@ func Keeper.Slash
+//@ func Keeper.Slash(ctx, requestID)
 //@   property C07, C13, C16
 //@   returns err
 //@   requires types.paramsOK(get(prm)) && pricingsWF
@@ -551,14 +551,14 @@ package keeper
 //@   nopanic C13, C16
 //@ end
 
-//@ func Keeper.GetServiceDefinition
+//@ func Keeper.GetServiceDefinition(ctx, serviceName)
 //@   property C07
 //@   trusted
 //@   returns def, found
 //@ end
 
 // AddServiceBinding: a new binding records exactly the deposit that is moved into the escrow.
-//@ func Keeper.AddServiceBinding
+//@ func Keeper.AddServiceBinding(ctx, serviceName, provider, deposit, pricing, qos, options, owner)
 //@   property C07
 //@   returns err
 //@   requires types.paramsOK(get(prm)) && pricingsWF
@@ -581,7 +581,7 @@ package keeper
 //@ define queueVals = (forall i:Bytes :: forall h:Int :: has(newBatch, i, h) ==> get(newBatch, i, h).Value == i)
 //@               && (forall i:Bytes :: forall h:Int :: has(expBatch, i, h) ==> get(expBatch, i, h).Value == i)
 //@               && (forall r:Bytes :: has(activeByID, r) ==> get(activeByID, r).Value == r)
-//@ func Keeper.IterateExpiredRequestBatch
+//@ func Keeper.IterateExpiredRequestBatch(ctx, expirationHeight, op)
 //@   inline
 //@   invariant #1 inv: endBlockInv && queueVals
 //@   invariant #1 pos:  0 <= it_idx && it_idx <= it_n
@@ -598,7 +598,7 @@ package keeper
 //@ end
 // the walk over the new-batch queue of this height: the entries still to come are untouched, the ones handled are gone,
 // nothing is added to this height meanwhile (queue hygiene, C08/C13)
-//@ func Keeper.IterateNewRequestBatch
+//@ func Keeper.IterateNewRequestBatch(ctx, requestBatchHeight, op)
 //@   inline
 //@   invariant #1 inv: endBlockInv && queueVals
 //@   invariant #1 pos:  0 <= it_idx && it_idx <= it_n
@@ -609,7 +609,7 @@ package keeper
 // the walk over the active requests of one batch (expiry): each one handled is no longer active, the ones to come
 // still are, and none of that batch is added meanwhile - so that afterwards no request of the batch is left without
 // an outcome (C08), whatever state the context is in
-//@ func Keeper.IterateActiveRequests
+//@ func Keeper.IterateActiveRequests(ctx, requestContextID, batchCounter, op)
 //@   inline
 //@   invariant #1 inv: endBlockInv && queueVals
 //@   invariant #1 pos:  0 <= it_idx && it_idx <= it_n
@@ -617,14 +617,14 @@ package keeper
 //@   invariant #1 done: forall j:Int :: 0 <= j && j < it_idx ==> !has(activeByID, it_seq[j])
 //@   invariant #1 none_added: forall r:Bytes :: !has(it_snap, r) ==> !has(activeByID, r)
 //@ end
-//@ func Keeper.CleanBatch
+//@ func Keeper.CleanBatch(ctx, requestContext, requestContextID)
 //@   inline
 //@   invariant #1 inv: endBlockInv && queueVals
 //@ end
 // Opening a batch (C08): one request per selected provider, and the context record starts the new batch from a clean
 // slate - counter advanced by one, batch running, no response counted yet, as many requests as providers, the context's
 // response threshold - so that "all answered" and the threshold are judged on this batch alone.
-//@ func Keeper.InitiateRequests
+//@ func Keeper.InitiateRequests(ctx, requestContextID, providers, providerRequests)
 //@   property C08, C13
 //@   returns ids
 //@   requires height >= 0 && endBlockInv
@@ -649,7 +649,7 @@ package keeper
 // pausing a context for lack of funds: the context record is rewritten and the owning module (if any) is told through its
 // registered state callback (A-CALLBACK: a callback is registered for every module name stored in a context - checked
 // when the context is created - and does not touch this module's store or escrow accounts)
-//@ func Keeper.OnRequestContextPaused
+//@ func Keeper.OnRequestContextPaused(ctx, requestContext, requestContextID, cause)
 //@   property C13, C08, C07
 //@   modifies contexts, *requestContext
 // the caller's context is the one that is paused (the end blocker re-reads its state to decide whether to issue requests)
